@@ -15,8 +15,9 @@
 
   The primitive comparators are the functions regenerated from go/pkg/types.go (Stef.Gen.*); the
   structural comparison `cmp`, `isEqual`, `clone`, `copyFrom` are the transcription of the stefc
-  templates in Stef/Cmp.lean. Where the code violates the property the full statement is refuted
-  from a witness (`..._false`) and a `..._partial` version carries the excluding hypothesis.
+  templates in Stef/Cmp.lean. (Convention where the code violates the property: the full statement
+  is refuted from a witness, `..._false`, and a `..._partial` version carries the excluding
+  hypothesis. Nothing of this file is refuted any more: every statement below is for ALL values.)
 
   History: until /repo commit 05846e0 pkg.Float64Compare used Go's `<`/`>` (NaN compared 0 with
   everything, -0 = +0) and this file refuted the order laws for floats. The fix compares the
@@ -28,7 +29,11 @@
   values stored in optional fields absent on both sides (IsEqual values with Cmp ≠ 0, finding
   cmp-stale-optional): Cmp separated more than the data. Since that commit Cmp = 0 ⇔ same data ⇔
   IsEqual, and Clone / CopyFrom / copyToNew results compare 0 with their source, for ALL values.
-  What remains refuted is one `!=` left in copy<Multimap> (unreachable in go/otel).
+  Commit d9a1aae replaced the last Go `!=` on field values (primitive keys/values in copy<Multimap>
+  and its computeDiff) by pkg.<T>Equal: `copyFrom_equal` lost its hypothesis (no -0.0 float directly
+  as multimap key/value) and its refutation `copyFrom_equal_false` is gone; no `!=` / `==` on a
+  field value is left in stefc/templates/go/{struct,oneof,array,multimap}.go.tmpl (only presence
+  bits, lengths, typ and nil pointers are compared with Go operators).
 -/
 import Stef.Proofs.Cmp
 import Stef.Proofs.CmpCopy
@@ -124,7 +129,7 @@ theorem cmp_total_order {α : Type} (P : α → Prop) (o : LeafOps α) (h : Tota
 /-- non-vacuity: the hypothesis is met by uint64 leaves under pkg.Uint64Compare, and the conclusion
     then covers e.g. a struct holding an optional field, a oneof and an array -/
 example : TotalOrderUpTo (Value.All (fun _ : BitVec 64 => True)) data
-    (cmp { cmp := Gen.uint64Compare, eq := Gen.uint64Equal, same := Gen.uint64Equal, zero := fun _ => 0 }) :=
+    (cmp { cmp := Gen.uint64Compare, eq := Gen.uint64Equal, zero := fun _ => 0 }) :=
   cmp_total_order _ _ uint64Compare_total_order
 example : (Value.struct (.cons .req (.leaf 5#64) (.cons .present (.choice 2#8 (.leaf 7#64))
     (.cons .req (.arr (.cons (.leaf 1#64) .nil)) .nil)))).All (fun _ : BitVec 64 => True) :=
@@ -232,10 +237,9 @@ example : isEqual primOps staleA staleB = true ∧ cmp primOps staleA staleB = 0
 /-! ## 5. CopyFrom and Clone
 
   Since /repo commit 59db810 the generated setters and copy loops are guarded by pkg.<T>Equal (bit
-  equality for floats since 05846e0), so copies are exact for every float bit pattern. Go's `!=` is
-  left in one modelled place, the primitive key/value branch of copy<Multimap> (no multimap of
-  go/otel has a float key or value). "Equal to the source" is stated three ways each time: same
-  data, IsEqual, Cmp = 0. -/
+  equality for floats since 05846e0), and since d9a1aae so is the primitive key/value branch of
+  copy<Multimap>: copies are exact for every float bit pattern everywhere. "Equal to the source" is
+  stated three ways each time: same data, IsEqual, Cmp = 0. -/
 
 /-- every record tree is equal to itself under IsEqual (NaN leaves included) -/
 theorem isEqual_refl (v : Value PrimVal) : isEqual primOps v v = true :=
@@ -260,42 +264,37 @@ example : isEqual primOps (copyNew primOps (samplePoint negZero)) (samplePoint n
 example : copyNew primOps staleA = staleB := by with_unfolding_all rfl
 
 /-- CopyFrom: whatever dst held before (any shape, any content), after `dst.CopyFrom(src)` dst holds
-    exactly the data of src, IsEqual(dst, src) is true and Cmp(dst, src) = 0 - provided no float that
-    is DIRECTLY a multimap key or value (in dst or src) is the negative zero. All other leaves are
-    unrestricted (NaN, -0 in struct fields, oneofs, arrays; stale values in absent optional fields). -/
-theorem copyFrom_equal (d s : Value PrimVal)
-    (hd : d.MapPrims PrimVal.notNegZero) (hs : s.MapPrims PrimVal.notNegZero) :
+    exactly the data of src, IsEqual(dst, src) is true and Cmp(dst, src) = 0 - for ALL values, no
+    hypothesis: NaN and -0.0 anywhere (struct fields, oneofs, arrays, multimap keys and values),
+    stale values in absent optional fields, destinations of another shape. (Until /repo d9a1aae a
+    -0.0 float directly used as multimap key/value was not copied over a +0.0: Go's `!=`.) -/
+theorem copyFrom_equal (d s : Value PrimVal) :
     data (copyFrom primOps d s) = data s ∧ isEqual primOps (copyFrom primOps d s) s = true ∧
     cmp primOps (copyFrom primOps d s) s = 0 := by
-  have e := data_copyFrom primEq primSameOk s d hs hd
+  have e := data_copyFrom primEq s d
   exact ⟨e, (isEqual_iff_same_data _ _).mpr e, (cmp_zero_iff_same_data _ _).mpr e⟩
 
-/-- non-vacuity: the Point-like sample (its multimap has a string key and a oneof value) meets the
-    hypothesis with a -0.0 and with a NaN in its float field, and is copied exactly over another
-    value; the former witness of "Cmp(copy, source) ≠ 0" (a fresh value over which a value with a
-    stale absent field is copied) now compares 0 -/
-example : (samplePoint negZero).MapPrims PrimVal.notNegZero ∧ (samplePoint nan).MapPrims PrimVal.notNegZero := by
-  simp [samplePoint, Value.MapPrims, Fields.MapPrims, Values.MapPrims, Pairs.MapPrims, PrimVal.notNegZero]
+/-- non-vacuity: the Point-like sample with a -0.0 and with a NaN in its float field is copied
+    exactly over another value; the former witness of "Cmp(copy, source) ≠ 0" (a fresh value over
+    which a value with a stale absent field is copied) compares 0 -/
 example : isEqual primOps (copyFrom primOps (samplePoint posZero) (samplePoint negZero)) (samplePoint negZero) = true ∧
     cmp primOps (copyFrom primOps (samplePoint two) (samplePoint nan)) (samplePoint nan) = 0 ∧
     cmp primOps (copyFrom primOps staleB staleA) staleA = 0 := by
   with_unfolding_all decide
 example : copyFrom primOps staleB staleA = staleB := by with_unfolding_all rfl
 
-/-- a multimap with a float64 VALUE (not a oneof): +0.0 in the destination, -0.0 in the source -/
+/-- a multimap with a float64 VALUE (not a oneof): +0.0 in the destination, -0.0 / NaN in the
+    source: the former witness of `copyFrom_equal_false` -/
 def mapPos : Value PrimVal := .mmap (.cons (.leaf (.str [0x6b#8])) (.leaf (.f64 posZero)) .nil)
 def mapNeg : Value PrimVal := .mmap (.cons (.leaf (.str [0x6b#8])) (.leaf (.f64 negZero)) .nil)
+def mapNaN : Value PrimVal := .mmap (.cons (.leaf (.str [0x6b#8])) (.leaf (.f64 nan)) .nil)
 
-/-- Without that hypothesis the claim is false for the templates as written: copy<Multimap> still
-    guards primitive keys/values with Go's `!=` (multimap.go.tmpl, `if dst.elems[i].value !=
-    src.elems[i].value`), which is false for +0.0 against -0.0 - the value is not copied. (By
-    transcription of the template; unreachable in go/otel, whose multimaps have no float
-    keys/values, so not a finding of the harness.) -/
-theorem copyFrom_equal_false :
-    ¬ ∀ d s : Value PrimVal, isEqual primOps (copyFrom primOps d s) s = true := by
-  intro h
-  have := h mapPos mapNeg
-  revert this; with_unfolding_all decide
+/-- the -0.0 is copied over the +0.0 (and the other way round), a NaN value is kept as it is -/
+example : copyFrom primOps mapPos mapNeg = mapNeg ∧ copyFrom primOps mapNeg mapPos = mapPos ∧
+    copyFrom primOps mapNaN mapNaN = mapNaN ∧ copyFrom primOps mapNaN mapNeg = mapNeg := by
+  refine ⟨?_, ?_, ?_, ?_⟩ <;> with_unfolding_all rfl
+example : isEqual primOps (copyFrom primOps mapPos mapNeg) mapNeg = true ∧
+    cmp primOps (copyFrom primOps mapPos mapNeg) mapNeg = 0 := by with_unfolding_all decide
 
 /-- a histogram-like struct with an optional field that is PRESENT, one that is absent with a stale
     stored value, and a nested struct with both: the former witness of clone-loses-optional-presence -/
